@@ -98,6 +98,7 @@ func (c CallGraph) AnalysisByFiles(restApis []apidomain.RestAPI, deps []core_dom
 }
 
 func escapeStr(caller string) string {
+	caller = strings.ReplaceAll(caller, "\\", "\\\\")
 	return strings.ReplaceAll(caller, "\"", "\\\"")
 }
 
